@@ -30,7 +30,7 @@ PROTO_TRUSTED = ["hashicorp/raft", "NATS delivery semantics as assumed", "Go sch
 PROPS = {
     "C01": dict(
         # Props.GoSegments: the model's segment lookups = the translated bodies of findSegment / findSegmentContains / findSegmentByBaseOffset
-        lean_modules=["Liftbridge.Props.C01", "Liftbridge.Props.Codec", "Liftbridge.Props.GoSegments", "Liftbridge.Props.GoAppend", "Liftbridge.Props.GoSplit", "Liftbridge.Props.GoTruncate", "Liftbridge.Props.GoAppendTop"],
+        lean_modules=["Liftbridge.Props.C01", "Liftbridge.Props.Codec", "Liftbridge.Props.GoSegments", "Liftbridge.Props.GoAppend", "Liftbridge.Props.GoSplit", "Liftbridge.Props.GoTruncate", "Liftbridge.Props.GoAppendTop", "Liftbridge.Props.GoReaderNew"],
         gen_sources=LOG_SOURCES,
         runs=[dict(go_pkg="./server/commitlog", test="TestVerifC01"), dict(go_pkg="./server/commitlog", test="TestVerifC01Codec")],
         level="proof",
@@ -57,7 +57,7 @@ PROPS = {
     "C10": dict(
         # Props.GoSubscribe: the model's stop-position table = the translated body of partition.getStopOffset
         # Props.GoTimestamps: the model's timestamp look-ups = the translated bodies of EarliestOffsetAfterTimestamp / LatestOffsetBeforeTimestamp
-        lean_modules=["Liftbridge.Props.C10", "Liftbridge.Props.GoSubscribe", "Liftbridge.Props.GoTimestamps", "Liftbridge.Props.GoRevScan"],
+        lean_modules=["Liftbridge.Props.C10", "Liftbridge.Props.GoSubscribe", "Liftbridge.Props.GoTimestamps", "Liftbridge.Props.GoRevScan", "Liftbridge.Props.GoReaderNew"],
         gen_sources=LOG_SOURCES + ["server/partition.go:partition.getStopOffset", "server/partition.go:gomini:partition.getStopOffset", "server/partition.go:partition.Subscribe",
                                    "server/partition.go:partition.newSubscribeLoop", "server/commitlog/commitlog.go:commitLog.EarliestOffsetAfterTimestamp", "server/commitlog/commitlog.go:gomini:commitLog.EarliestOffsetAfterTimestamp",
                                    "server/commitlog/commitlog.go:gomini:commitLog.LatestOffsetBeforeTimestamp"],
@@ -311,7 +311,7 @@ PROPS = {
         timeout={"quick": 900, "thorough": 5400},
     ),
     "C03": dict(
-        lean_modules=["Liftbridge.Props.C03", "Liftbridge.Props.GoHW", "Liftbridge.Props.GoHWPos"],
+        lean_modules=["Liftbridge.Props.C03", "Liftbridge.Props.GoHW", "Liftbridge.Props.GoHWPos", "Liftbridge.Props.GoReaderNew"],
         gen_sources=["server/commitlog/commitlog.go", "server/commitlog/reader.go", "server/commitlog/segment.go",
                      "server/commitlog/util.go:findSegment:", "server/commitlog/util.go:findSegmentByBaseOffset:", "server/commitlog/util.go:findSegmentContains:",
                      "server/partition.go:partition.handleReplicationResponse", "server/ (cannot list)"],
